@@ -250,6 +250,7 @@ def quic_conn(draw, max_steps=12, zero_cid=True, early=True, retry=True, offered
             "retry": draw(st.booleans()) if retry else False,
             "early": draw(st.sampled_from([0, 0, 0, 1, 2, 3])) if early else 0,
             "early_late": draw(st.sampled_from([0, 0, 1, 2])) if early else 0, "half_rtt": draw(st.sampled_from([0, 0, 1, 2])),
+            "ch_retx": draw(st.sampled_from([0, 0, 0, 1, 2])), "ch_retx_last_only": draw(st.booleans()),
             "split_ch": draw(st.sampled_from([0, 0, 1, 2, 3, 5])), "ch_shuffle": draw(st.booleans()),
             "split_shs": draw(st.sampled_from([0, 0, 2, 3])), "hs_coalesce": draw(st.booleans()),
             "cert_len": draw(st.sampled_from([100, 600, 900]))}
